@@ -6,10 +6,11 @@
 (* accumulated.                                                               *)
 EXTENDS TraceBase, Call
 
-VARIABLES l, eng, mapSelf   \* mapSelf: identity of the map object that was asked for the coordinates of the call in flight
-vars == <<callVars, l, eng, mapSelf>>
+VARIABLES l, eng, mapSelf,  \* mapSelf: identity of the map object that was asked for the coordinates of the call in flight
+          fseq             \* the integrand object's own count of its evaluations, as logged with the last one (-1: none yet in this iteration)
+vars == <<callVars, l, eng, mapSelf, fseq>>
 
-Init == /\ l = 1 /\ eng = <<0, 0>> /\ mapSelf = 0
+Init == /\ l = 1 /\ eng = <<0, 0>> /\ mapSelf = 0 /\ fseq = -1
         /\ cfg = [kind |-> "none", d |-> 0, k |-> 0, n |-> 0, w |-> <<>>, bins |-> 0, calls |-> 0, noSq |-> FALSE]
         /\ phase = "Idle" /\ pos = 0 /\ cur = NoCall
         /\ acc = [calls |-> 0, nz |-> 0, fin |-> 0, sum |-> 0, sumsq |-> 0, adj |-> <<>>, exact |-> TRUE]
@@ -17,20 +18,21 @@ Init == /\ l = 1 /\ eng = <<0, 0>> /\ mapSelf = 0
 Ev == TheTrace[l]
 Is(name) == l <= TraceLen /\ Ev.e = name
 Step == l' = l + 1
-Keep == UNCHANGED <<eng, mapSelf>>
+Keep == UNCHANGED <<eng, mapSelf, fseq>>
 
 TIterBegin ==
     /\ Is("IterBegin")
     /\ phase = "Idle"
     /\ (eng[1] > 0) => Ev.k = Usage(eng[1], eng[2])
-    /\ Keep
+    /\ UNCHANGED <<eng, mapSelf>> /\ fseq' = -1
     /\ BeginIter([kind |-> Ev.kind, d |-> Ev.d, k |-> Ev.k, n |-> Ev.n, w |-> Ev.w, bins |-> Ev.bins, calls |-> Ev.calls, noSq |-> Ev.noSq = 1])
     /\ Step
 
 TDraw == Keep /\ Is("Draw") /\ Draw(Ev.n) /\ Step
-TMapCoord == Is("MapCoord") /\ UNCHANGED eng /\ mapSelf' = Ev.self /\ MapCoord(Ev.ch, Ev.enabled, Ev.rn, Ev.caddr, Ev.daddr, Ev.unitOK = 1) /\ Step
+TMapCoord == Is("MapCoord") /\ UNCHANGED <<eng, fseq>> /\ mapSelf' = Ev.self /\ MapCoord(Ev.ch, Ev.enabled, Ev.rn, Ev.caddr, Ev.daddr, Ev.unitOK = 1) /\ Step
 TMapCoordDone == Keep /\ Is("MapCoordDone") /\ MapCoordDone(Ev.csum, Ev.dsum) /\ Step
-TIntBegin == Keep /\ Is("IntBegin") /\ IntBegin(Ev.unitOK = 1, Ev.chan, Ev.csum, Ev.caddr) /\ Step
+\* the function object that is evaluated is one and the same throughout an iteration (its own state moves on by one per evaluation)
+TIntBegin == Is("IntBegin") /\ UNCHANGED <<eng, mapSelf>> /\ (fseq = -1 \/ Ev.fseq = fseq + 1) /\ fseq' = Ev.fseq /\ IntBegin(Ev.unitOK = 1, Ev.chan, Ev.csum, Ev.caddr) /\ Step
 TWeightReq == Keep /\ Is("WeightReq") /\ WeightReq /\ Step
 \* "the map is asked for densities": the object that computed the coordinates, not a copy of it (a map may keep state between the two requests)
 TMapDens == Is("MapDens") /\ Keep /\ Ev.self = mapSelf /\ MapDens(Ev.ch, Ev.rn, Ev.caddr, Ev.csum, Ev.daddr, Ev.dsum) /\ Step
@@ -49,7 +51,7 @@ TIterEnd ==
     /\ Step /\ Keep
 
 \* informational marker: which engine / numeric type the following iterations use
-TEngine == Is("Engine") /\ phase = "Idle" /\ Step /\ UNCHANGED <<callVars, mapSelf>> /\ eng' = <<Ev.digits, Ev.lg>>
+TEngine == Is("Engine") /\ phase = "Idle" /\ Step /\ UNCHANGED <<callVars, mapSelf, fseq>> /\ eng' = <<Ev.digits, Ev.lg>>
 
 Next == TEngine \/ TIterBegin \/ TDraw \/ TMapCoord \/ TMapCoordDone \/ TIntBegin \/ TWeightReq \/ TMapDens \/ TIntEnd \/ TIterEnd
 Spec == Init /\ [][Next]_vars
